@@ -15,6 +15,8 @@ From Borno Require Import NumInt.
 From Borno Require Import NumFacts.
 From Borno Require Import NumPrint.
 From Borno Require Import PrintFacts.
+From Borno Require Import NumShortestDefs.
+From Borno Require Import NumShortest.
 
 (** each executed print appends exactly one event carrying the text of its value (the driver adds the newline and normalises to NFC) *)
 Theorem C15_print_event_inv :
@@ -77,7 +79,7 @@ Theorem C15_text_arr_inv :
          exists (vs : list value) (ts : list (list N)),
            get_arr l s = Some vs /\
            Forall2 (fun (v : value) (t0 : list N) => text_in f s v = TOk t0) vs ts /\
-           t = 91 :: join_sp ts ++ [93].
+           t = 91%N :: join_sp ts ++ [93%N].
 Proof. exact (@text_arr_inv). Qed.
 Print Assumptions C15_text_arr_inv.
 
@@ -87,7 +89,7 @@ Theorem C15_text_obj_inv :
          text_in (S f) s (VObj l) = TOk t ->
          exists (ps : list (list N * value)) (pieces : list (list N)),
            get_obj l s = Some ps /\
-           Forall2 (prop_piece f s) ps pieces /\ t = [109; 97; 112; 91] ++ join_sp pieces ++ [93].
+           Forall2 (prop_piece f s) ps pieces /\ t = [109%N; 97%N; 112%N; 91%N] ++ join_sp pieces ++ [93%N].
 Proof. exact (@text_obj_inv). Qed.
 Print Assumptions C15_text_obj_inv.
 
@@ -95,7 +97,7 @@ Print Assumptions C15_text_obj_inv.
 Theorem C15_shortest_digits_roundtrip :
   forall (f : f64) (d x : Z),
          shortest_digits f = Some (d, x) ->
-         (0 < d)%Z /\
+         0 < d /\
          rnd64 (dec_real d x) = Rbasic_fun.Rabs (BinarySingleNaN.B2R f) /\
          Rdefinitions.RbaseSymbolsImpl.Rlt (Rbasic_fun.Rabs (rnd64 (dec_real d x))) bmax.
 Proof. exact (@shortest_digits_roundtrip). Qed.
@@ -113,20 +115,19 @@ Theorem C15_text_num_cases :
          f = BinarySingleNaN.B754_nan /\ text_num f = Some s_NaN \/
          f = BinarySingleNaN.B754_infinity false /\ text_num f = Some s_pInf \/
          f = BinarySingleNaN.B754_infinity true /\ text_num f = Some s_nInf \/
-         f = BinarySingleNaN.B754_zero false /\ text_num f = Some [48] \/
-         f = BinarySingleNaN.B754_zero true /\ text_num f = Some [45; 48] \/
+         f = BinarySingleNaN.B754_zero false /\ text_num f = Some [48%N] \/
+         f = BinarySingleNaN.B754_zero true /\ text_num f = Some [45%N; 48%N] \/
          BinarySingleNaN.is_finite_strict f = true /\
          (forall z : Z,
           BinarySingleNaN.B2R (BinarySingleNaN.Babs f) = Rdefinitions.IZR z ->
-          (z < 2 ^ 53)%Z ->
-          exists d x : Z,
-            text_num f = Some (layout (BinarySingleNaN.Bsign f) d x) /\ (d * 10 ^ x)%Z = z /\ (0 <= x)%Z).
+          z < 2 ^ 53 ->
+          exists d x : Z, text_num f = Some (layout (BinarySingleNaN.Bsign f) d x) /\ d * 10 ^ x = z /\ 0 <= x).
 Proof. exact (@text_num_cases). Qed.
 Print Assumptions C15_text_num_cases.
 
 (** integers of magnitude below one million print without exponent or fraction *)
 Theorem C15_small_int_plain_signed :
-  forall z : Z, (-1000000 < z < 1000000)%Z -> text_num (f_of_Z z) = Some (decimal_of_Z z).
+  forall z : Z, -1000000 < z < 1000000 -> text_num (f_of_Z z) = Some (decimal_of_Z z).
 Proof. exact (@small_int_plain_signed). Qed.
 Print Assumptions C15_small_int_plain_signed.
 
@@ -145,3 +146,56 @@ Theorem C15_concat_right_is_print_text :
          add (VStr p) v = OVal (VStr r) <-> (exists t : list N, text_of s v = TOk t /\ r = p ++ t).
 Proof. exact (@concat_right_is_print_text). Qed.
 Print Assumptions C15_concat_right_is_print_text.
+
+(** SHORTEST: no decimal with fewer significant digits reads back as the same double (for every finite non-zero double, every d' * 10^x') *)
+Theorem C15_shortest_digits_minimal :
+  forall (f : f64) (d x d' x' : Z),
+         shortest_digits f = Some (d, x) ->
+         0 < d' -> f_same (dec_to_f64 d' x') (BinarySingleNaN.Babs f) = true -> sigdigits d <= sigdigits d'.
+Proof. exact (@shortest_digits_minimal). Qed.
+Print Assumptions C15_shortest_digits_minimal.
+
+(** the rounding interval the digit search works on is exactly the set of decimals that read back as the double (both directions; binade boundaries and subnormals included) *)
+Theorem C15_reads_back_iff_in_interval :
+  forall (f : f64) (d' x' : Z),
+         BinarySingleNaN.is_finite_strict f = true ->
+         0 < d' -> f_same (dec_to_f64 d' x') (BinarySingleNaN.Babs f) = true <-> in_f64_interval f d' x' = true.
+Proof. exact (@reads_back_iff_in_interval). Qed.
+Print Assumptions C15_reads_back_iff_in_interval.
+
+(** ...minimality stated on that interval *)
+Theorem C15_shortest_digits_minimal_interval :
+  forall (f : f64) (d x : Z),
+         shortest_digits f = Some (d, x) ->
+         forall d' x' : Z, 0 < d' -> in_f64_interval f d' x' = true -> sigdigits d <= sigdigits d'.
+Proof. exact (@shortest_digits_minimal_interval). Qed.
+Print Assumptions C15_shortest_digits_minimal_interval.
+
+(** ...and for the integer search itself (closed under the global context: pure integer arithmetic) *)
+Theorem C15_shortest_from_minimal :
+  forall (fuel : nat) (lo mid hi den : Z) (incl : bool) (E d x : Z),
+         0 < den ->
+         lo < mid < hi ->
+         le10b E mid den = true ->
+         lt10b (E + 1) mid den = true ->
+         shortest_from fuel 1 lo mid hi den incl E = Some (d, x) ->
+         0 < d /\
+         in_interval lo hi den incl d x = true /\
+         (forall d' x' : Z, 0 < d' -> in_interval lo hi den incl d' x' = true -> sigdigits d <= sigdigits d').
+Proof. exact (@shortest_from_minimal). Qed.
+Print Assumptions C15_shortest_from_minimal.
+
+(** the digits returned carry no trailing zero *)
+Theorem C15_shortest_digits_stripped :
+  forall (f : f64) (d x : Z),
+         shortest_digits f = Some (d, x) -> d mod 10 <> 0 /\ sigdigits d = ndigits d.
+Proof. exact (@shortest_digits_stripped). Qed.
+Print Assumptions C15_shortest_digits_stripped.
+
+(** the read-back check inside the model is redundant: the candidate always passes it *)
+Theorem C15_shortest_digits_check_redundant :
+  forall (s : bool) (m : positive) (e : Z) (Hb : SpecFloat.bounded prec emax m e = true) (d x : Z),
+         shortest_candidate m e = Some (d, x) ->
+         shortest_digits (BinarySingleNaN.B754_finite s m e Hb) = Some (d, x).
+Proof. exact (@shortest_digits_check_redundant). Qed.
+Print Assumptions C15_shortest_digits_check_redundant.
